@@ -313,6 +313,54 @@ func (t *tr) bls(i int, rnd *choice.Src) {
 		ok, err = crypto.SPOCKVerify(pks[0], mustSpock(sks[0], msg, h), pks[1], mustSpock(sks[1], msg, h))
 		t.addf("spock.verify2", "%v %v", ok, err)
 	}
+	// edge cases of the group law: doubling (equal operands), running sum equal to the next
+	// element, opposite points, identity
+	if len(sks) == 4 {
+		neg := func(sig crypto.Signature) crypto.Signature {
+			n := append([]byte(nil), sig...)
+			n[0] ^= 0x20
+			return n
+		}
+		s01, _ := crypto.AggregateBLSSignatures(sigs[:2])
+		idSig := make([]byte, 48)
+		idSig[0] = 0xC0
+		for k, l := range [][]crypto.Signature{
+			{sigs[0], sigs[0]}, {sigs[0], sigs[0], sigs[0]}, {sigs[0], sigs[1], s01}, {sigs[0], sigs[1], s01, sigs[2]},
+			{sigs[0], neg(sigs[0])}, {sigs[0], neg(sigs[0]), sigs[1]}, {idSig, sigs[0]}, {sigs[0], idSig, sigs[0]}, {idSig, idSig},
+		} {
+			a, err := crypto.AggregateBLSSignatures(l)
+			t.add(fmt.Sprintf("edge.aggsig.%d", k), a)
+			t.addf(fmt.Sprintf("edge.aggsig.err.%d", k), "%v", err)
+		}
+		p01, _ := crypto.AggregateBLSPublicKeys(pks[:2])
+		id := crypto.IdentityBLSPublicKey()
+		for k, l := range [][]crypto.PublicKey{
+			{pks[0], pks[0]}, {pks[0], pks[0], pks[0]}, {pks[0], pks[1], p01}, {pks[0], pks[1], p01, pks[2]}, {id, pks[0]}, {pks[0], id, pks[0]}, {id, id},
+		} {
+			a, err := crypto.AggregateBLSPublicKeys(l)
+			if err == nil {
+				t.add(fmt.Sprintf("edge.aggpk.%d", k), a.Encode())
+			}
+			t.addf(fmt.Sprintf("edge.aggpk.err.%d", k), "%v", err)
+		}
+		for k, l := range [][]crypto.PublicKey{{pks[0]}, {pks[0], pks[0]}, {p01}, {pks[1], pks[0]}, {}} {
+			a, err := crypto.RemoveBLSPublicKeys(p01, l)
+			if err == nil {
+				t.add(fmt.Sprintf("edge.rempk.%d", k), a.Encode())
+			}
+			t.addf(fmt.Sprintf("edge.rempk.err.%d", k), "%v", err)
+		}
+		if a, err := crypto.AggregateBLSPrivateKeys([]crypto.PrivateKey{sks[0], sks[0], sks[1]}); err == nil {
+			t.add("edge.aggsk", a.Encode())
+		}
+		s00, _ := crypto.AggregateBLSSignatures([]crypto.Signature{sigs[0], sigs[0]})
+		ok, err := crypto.VerifyBLSSignatureOneMessage([]crypto.PublicKey{pks[0], pks[0]}, s00, msg, h)
+		t.addf("edge.verify.dupkeys", "%v %v", ok, err)
+		res, err := crypto.BatchVerifyBLSSignaturesOneMessage([]crypto.PublicKey{pks[0], pks[0], pks[1]}, []crypto.Signature{sigs[0], sigs[0], sigs[1]}, msg, h)
+		t.addf("edge.batch.dups", "%v %v", res, err)
+		ok, err = crypto.VerifyBLSSignatureManyMessages([]crypto.PublicKey{pks[0], pks[0]}, s00, [][]byte{msg, msg}, []hash.Hasher{h, h})
+		t.addf("edge.many.dups", "%v %v", ok, err)
+	}
 	// decoding of invalid points and scalars
 	badpks := [][]byte{curve.G2NonSubgroup(rnd), curve.G2OffCurve(rnd), curve.G2XTooLarge(rnd), make([]byte, 96), rnd.Bytes(96)}
 	if len(pks) > 0 {
